@@ -50,9 +50,10 @@ def t_status(chk, ix):
     rules_status.check_mapping_functions(chk, ix)
     rules_status.check_rollup(chk, ix, tier=chk.tier)
     rules_status.check_reset_chain(chk, ix)
+    rules_status.check_mark_skipped_postcondition(chk, ix)
 
 
 def run(chk, ix, tier):
     run_parallel(chk, [(t_status, ()), (t_own_steps, ()), (T.t_run_hook, (("H1",),)), (T.t_scenario, (("R4",),))] + T.container_tasks(("R4",)))
-    for r, n in (("B1", 1), ("B4", 1), ("R1", 20), ("R2", 15), ("R3", 4), ("R4", 4), ("R5", 5), ("R6", 5), ("H1", 10), ("RF5", 3)):
+    for r, n in (("B1", 1), ("B4", 1), ("R1", 20), ("R2", 15), ("R3", 4), ("R4", 4), ("R5", 5), ("R6", 5), ("R7", 8), ("H1", 10), ("RF5", 3)):
         chk.require_instances(r, n)
